@@ -92,7 +92,7 @@ fn run_history(w: &World, ops: &[Op], memo: Option<&mut HashMap<Vec<(usize, usiz
             }
             Op::AddFile(id, c) => {
                 st.inc("op.add_file_ok");
-                if std::fs::write(&w.ids[*id], &w.contents[*c]).is_err() {
+                if write_with_fixed_mtime(&w.ids[*id], w.contents[*c].as_bytes()).is_err() {
                     st.inconclusive += 1;
                     return None;
                 }
@@ -131,7 +131,13 @@ fn run_history(w: &World, ops: &[Op], memo: Option<&mut HashMap<Vec<(usize, usiz
                 st.inc("op.add_file_invalid_utf8");
                 // the file sits at the path of an id that may be present: a failed load must not change it
                 let path = w.ids[*id].clone();
-                if std::fs::write(&path, [b'p', b'a', 0xff, 0xfe, b'c', 0xc3, 0x28]).is_err() {
+                // same length as the fixed contents, same time stamp as every other write
+                let mut bad = vec![b'p', b'a', 0xff, 0xfe, b'c', 0xc3, 0x28];
+                let want = w.contents.first().map_or(7, |c| c.len());
+                while bad.len() < want {
+                    bad.push(b' ');
+                }
+                if write_with_fixed_mtime(&path, &bad).is_err() {
                     st.inconclusive += 1;
                     return None;
                 }
@@ -171,7 +177,21 @@ fn run_history(w: &World, ops: &[Op], memo: Option<&mut HashMap<Vec<(usize, usiz
     None
 }
 
-const FIXED_CONTENTS: &[&str] = &[
+/// All four fixed contents are padded to the same byte length and every file the harness writes gets the same
+/// modification time: a reload must be decided by the file's text, not by its size or time stamp (`cp -p`,
+/// `rsync -t`, coarse-grained file systems produce exactly this).
+fn fixed_contents() -> Vec<String> {
+    let n = FIXED_CONTENTS_RAW.iter().map(|s| s.len()).max().unwrap_or(0);
+    FIXED_CONTENTS_RAW.iter().map(|s| format!("{s}{}", " ".repeat(n - s.len()))).collect()
+}
+
+fn write_with_fixed_mtime(path: &std::path::Path, bytes: &[u8]) -> std::io::Result<()> {
+    std::fs::write(path, bytes)?;
+    let f = std::fs::OpenOptions::new().write(true).open(path)?;
+    f.set_modified(std::time::UNIX_EPOCH + Duration::from_secs(1_600_000_000))
+}
+
+const FIXED_CONTENTS_RAW: &[&str] = &[
     "package a; import b.P; import c.E; import d.Gone; interface I { void f(in P p, E e, in List<P> l, Q q); }",
     "package b; parcelable P { int x; List<String> names; }",
     "package c; enum E { A = 1, B }",
@@ -248,7 +268,7 @@ pub fn run_c12(ctx: &Ctx) -> i32 {
             WORLD.with(|wc| {
                 let mut wc = wc.borrow_mut();
                 if wc.is_none() {
-                    *wc = Some((World::new(&thread_tag(), 3, FIXED_CONTENTS.iter().map(|s| s.to_string()).collect()), HashMap::new()));
+                    *wc = Some((World::new(&thread_tag(), 3, fixed_contents()), HashMap::new()));
                 }
                 let (w, memo) = wc.as_mut().unwrap();
                 st.case(hash_str(&format!("{start:?}{ops:?}")), true);
@@ -256,7 +276,7 @@ pub fn run_c12(ctx: &Ctx) -> i32 {
                 let r = crate::runner::lib(std::panic::AssertUnwindSafe(|| run_history(w, &ops, Some(memo), st, &start)));
                 match r {
                     Ok(None) => {}
-                    Ok(Some((step, what))) => st.violate(stage, i, "history-dependence", format!("after step {step} of {:?} (from state {:?}): {what}", ops, start), json!({"start_state": format!("{start:?}"), "ops": format!("{ops:?}"), "step": step, "contents": FIXED_CONTENTS, "what": what})),
+                    Ok(Some((step, what))) => st.violate(stage, i, "history-dependence", format!("after step {step} of {:?} (from state {:?}): {what}", ops, start), json!({"start_state": format!("{start:?}"), "ops": format!("{ops:?}"), "step": step, "contents": FIXED_CONTENTS_RAW, "what": what})),
                     Err(p) => st.violate(stage, i, "panic", format!("library panicked: {p}"), json!({"ops": format!("{ops:?}")})),
                 }
                 if st.want_sample() && ops.len() >= 2 {
